@@ -22,6 +22,9 @@ type V2 struct {
 
 var bg = context.Background()
 
+// SetContexts replaces the contexts the two back ends pass to the clients (the concurrency recorder uses a cancellable one for one call).
+func SetContexts(ctx context.Context) { bg, bgv1 = ctx, ctx }
+
 // Name of the back end.
 func (b *V2) Name() string { return "v2" }
 
